@@ -155,6 +155,42 @@ def integer_pr_bank(rng):
     return h0, h1, g[:L].copy(), g[L:].copy()
 
 
+def solve_synthesis(h0, h1, off):
+    """integer synthesis pair (g0, g1) with  sum_{a = p mod 2} h0[a] g0[d+off-a] + h1[a] g1[d+off-a] = [d == 0]  for both
+    parities p and every lag d (off = L-1 is the Lean hypothesis PRBank), or None"""
+    L = len(h0)
+    rows, rhs = [], []
+    for p_ in (0, 1):
+        for d in range(-(L - 1), L + 1):
+            r = np.zeros(2 * L)
+            for a in range(p_, L, 2):
+                i = d + off - a
+                if 0 <= i < L:
+                    r[i] += h0[a]; r[L + i] += h1[a]
+            rows.append(r); rhs.append(1.0 if d == 0 else 0.0)
+    A = np.array(rows); b = np.array(rhs)
+    g = np.round(np.linalg.lstsq(A, b, rcond=None)[0])
+    if not np.array_equal(A @ g, b):
+        return None
+    return g[:L].copy(), g[L:].copy()
+
+
+def integer_pr_bank_odd(rng, m):
+    """an ODD-length integer PR bank: an even-length cascade with one zero tap added at either end of the analysis pair,
+    synthesis pair solved exactly for the alignment the library uses in mode m: lag offset L-1 (PRBank) in the padded
+    modes, L-2 in periodization (there the delay is 2*(L//2)-1, which differs from L-1 exactly when L is odd).  Both
+    alignments were validated on the pinned tree (exact round trips)."""
+    bank = integer_pr_bank(rng)
+    if bank is None:
+        return None
+    end = rng.random() < 0.5
+    h0 = np.append(bank[0], 0.0) if end else np.insert(bank[0], 0, 0.0)
+    h1 = np.append(bank[1], 0.0) if end else np.insert(bank[1], 0, 0.0)
+    L = len(h0)
+    g = solve_synthesis(h0, h1, L - 2 if gen.MODE_NAME[m] == 'periodization' else L - 1)
+    return None if g is None else (h0, h1, g[0], g[1])
+
+
 def oracle_pr_bank(ck, dims, m, J, bank, x):
     """exact round trip for an integer bank satisfying PRBank (the hypothesis class of the Lean theorems)"""
     h0, h1, g0, g1 = bank
@@ -224,6 +260,21 @@ def oracle(ck, extended):
         else:
             rt.guard(ck, oracle_pr_bank, ck, 2, m, J, bank, gen.int_tensor(rng, (1, 1, rng.randint(max(2, L), 14), rng.randint(max(2, L), 14)), 4))
     ck.extra['integer_pr_banks_used'] = made
+    # odd filter lengths (legal when the wavelet is given as a tuple of arrays), every mode
+    made_odd = 0
+    for it in range((40 if q else 400) * (3 if extended else 1)):
+        m = gen.MODES5[it % len(gen.MODES5)]
+        bank = integer_pr_bank_odd(rng, m)
+        if bank is None or max(abs(v) for f in bank for v in f) > 60:
+            continue
+        made_odd += 1
+        L = len(bank[0]); J = rng.randint(1, 2)
+        if it % 3 != 0:
+            N = rng.choice([2 * L, 2 * L + 1, L + 1, rng.randint(max(2, L), 24)])
+            rt.guard(ck, oracle_pr_bank, ck, 1, m, J, bank, gen.int_tensor(rng, (1, rng.randint(1, 2), N), 4))
+        else:
+            rt.guard(ck, oracle_pr_bank, ck, 2, m, J, bank, gen.int_tensor(rng, (1, 1, rng.randint(max(2, L), 14), rng.randint(max(2, L), 14)), 4))
+    ck.extra['odd_length_integer_pr_banks_used'] = made_odd
     names = pywt.wavelist(kind='discrete')
     n = (140 if q else 1500) * (3 if extended else 1)
     for it in range(n):
